@@ -199,6 +199,8 @@ def child_xml(c, ind):
 
 
 def to_xml(doc, top="schema", extra_attrs=()):
+    if doc.get("external"):
+        return doc["xml"]
     out = ["<%s%s>" % (top, _attrs([("keytype", doc.get("keytype")), ("datatype", _dt(doc.get("datatype"))),
                                    ("handler", doc.get("handler"))] + list(extra_attrs)))]
     for td in doc["types"]:
@@ -381,6 +383,10 @@ def random_schema(rng):
 def valid_doc(doc):
     """Rule-abiding by construction?  (expansion works, names/attributes unique
     per container including inherited ones, wildcard key not before... )"""
+    if doc.get("external"):
+        # a schema that lives outside this module (composed documents on disk): its record was read off the
+        # schema object the real parser built, after the schema-language specification (C10/C11) agreed with it
+        return doc["rec"]
     try:
         rec = expand(doc)
     except (SchemaDocError, KeyError):
